@@ -104,6 +104,7 @@ def gen_cell(name, ty, kind, heap, tp):
             f"    /// ArcSwap::load yields a snapshot of the current value",
             f"    pub fn load{gen}(&self, h: &{heap}) -> (r: {ty}) ensures r == h.{name} {{ clone_val(&h.{name}) }}",
             f"    pub fn store{gen}(&self, h: &mut {heap}, v: {ty}) ensures {upd(f'{name}: v')} {{ h.{name} = v; }}",
+            f"    pub fn load_full{gen}(&self, h: &{heap}) -> (r: {ty}) ensures r == h.{name} {{ clone_val(&h.{name}) }}",
         ]
     else:
         raise WeaveError(f"unknown cell kind {kind}")
